@@ -247,3 +247,4 @@ def check(ctx, rep):
     metarules.for_class_rule(ctx, rep, "C07.META", ("mro",))
     from .c02 import def_rule
     def_rule(ctx, rep, "C07.DEF")      # two frozen instances built from one default must not share it
+    metarules.options_verbatim(ctx, rep, "C07.OPT", ("frozen",))
